@@ -295,6 +295,11 @@ fn main() {
             (vec![14, 7, 17, 9], 3, vec![1, 2], 3, vec![10], vec!['E', 'D']),
             // knocks racing join-rule changes, in the versions that have knocking but not yet knock_restricted
             (vec![17, 18, 19, 7], 3, vec![1, 2], 2, vec![9, 7], vec!['A']),
+            // an unconflicted newer join rule while an older one comes back through the auth chain of a join
+            (vec![8, 20, 19, 9], 4, vec![2], 2, vec![11], vec!['F']),
+            // every auth_events list in the opposite order (power levels before the create event)
+            (vec![0, 1, 2, 3, 6, 7, 8], 2, vec![1, 2], 2, vec![11], vec!['a', 'b']),
+            (vec![14, 7, 17, 9], 3, vec![1, 2], 2, vec![10], vec!['e']),
         ],
         // cheapest first, so that the wall cap (if it is ever hit) cuts only the last, largest pass
         Tier::Thorough => vec![
@@ -307,7 +312,7 @@ fn main() {
         ],
     };
     report.set_rule(&format!(
-        "S: passes (templates of 20, depth, timestamp classes, triple depth, room versions, base rooms) = {passes:?}: every room history reachable by appending \
+        "S: passes (templates of 21, depth, timestamp classes, triple depth, room versions, base rooms) = {passes:?}: every room history reachable by appending \
          <= depth events from the pass's templates (power-level changes by creator/mod, ban, kick, join, leave, join-rule changes, topic/name by \
          mod/user/creator; prev = every 1- or 2-subset of base tip + appended nodes that is not an ancestor pair; timestamp earlier than all / \
          equal to prev / later) to base room A (with power levels), B (without) or C (A followed by an abandoned power-levels fork, a topic under it, a competing power-levels event and a merging power-levels event); an event exists only if the real auth_check accepts it; after \
